@@ -17,7 +17,7 @@ EXPLANATION = (
     "the URI handed to the next hop's _handleResponse as requestURI is the very expression requested from the inner agent, uri/method/count are "
     "carried through by position at every hand-over (request -> _handleResponse -> _handleRedirect -> _handleResponse) (F27, fixed); (b) the limit test "
     "redirectCount >= limit raises before the request, the count passed on is redirectCount + 1 starting from 0, a missing Location raises; (c) on the "
-    "not-same-origin edge the headers sent are rebuilt by the comprehension that drops every name in _sensitiveHeaderNames, sameOrigin is the conjunction "
+    "not-same-origin edge (and only the tests `headers`, `not sameOrigin`, the limit and the missing-Location test may dominate the comparison and the stripping) the headers sent are rebuilt by the comprehension that drops every name in _sensitiveHeaderNames, sameOrigin is the conjunction "
     "of scheme, host and port equality between the ORIGINAL uri and the target, the default set contains Authorization/Cookie/Proxy-Authorization in "
     "canonical capitalisation (evaluated with the Headers canonicaliser's rule) and configured names are canonicalised; (d) status tables of both agents: "
     "method-preserving codes need GET/HEAD else raise, see-other codes pass the literal GET, and 307/308 are never in a method-switching table "
@@ -194,12 +194,47 @@ def check(ctx):
                     ctx.check(w is None and bool(cross), "credentials/stripped-cross-origin", ctx.construct(q, rc),
                               "on the cross-origin edge the request can be sent with the unfiltered headers (Authorization/Cookie leak to another origin)", witness=g.describe(w))
                     strip_ok = True
-                # the only way around the same-origin test is `headers` being falsy
-                w = g.path([g.entry], [rn], avoid=tests, edge_ok=lambda a_, b2, l: l != "exc")
-                if w is not None:
-                    skipped_by = [t for t in w if g.node(t).kind == "test" and src(g.node(t).ast) == hname]
-                    ctx.check(bool(skipped_by), "credentials/stripped-cross-origin", ctx.construct(q, rc) + " | bypass",
-                              "the request can be reached without the same-origin decision although headers are present", witness=g.describe(w))
+                # the only way around the same-origin test is `headers` being falsy / None
+                def _hdr_absent_edge(a_, lab):
+                    e = g.node(a_).ast
+                    if g.node(a_).kind != "test":
+                        return False
+                    if src(e) in (hname, "headers"):
+                        return lab == "F"
+                    for nm in (hname, "headers"):
+                        p_ = _cmp_none(e, nm)
+                        if p_ is not None:
+                            return (lab == "T") == p_
+                    return False
+                w = g.path([g.entry], [rn], avoid=tests, edge_ok=lambda a_, b2, l: l != "exc" and not _hdr_absent_edge(a_, l))
+                ctx.check(w is None, "credentials/stripped-cross-origin", ctx.construct(q, rc) + " | bypass",
+                          "a redirect that carries headers can reach the next request without the same-origin decision (e.g. a shortcut for 'relative' Locations: "
+                          "`//other.example/x` changes the host without containing '://'): sensitive headers go to a foreign origin", witness=g.describe(w))
+                # exact guard set: only 'headers present', 'not same origin', the limit test and the missing-Location test may decide whether the
+                # comparison and the stripping run
+                lh = [x for x in walk_local(hr) if isinstance(x, ast.Assign) and isinstance(x.value, ast.Call) and call_attr(x.value) == "getRawHeaders" and
+                      x.value.args and _const(x.value.args[0]) in (b"location", b"Location")]
+                lhvar = src(lh[0].targets[0]) if len(lh) == 1 else "locationHeaders"
+                limit_forms = (lin_expect({"redirectCount": 1, "self._redirectLimit": -1}, 0), lin_expect({"redirectCount": -1, "self._redirectLimit": 1}, 1))
+
+                def _allowed(e):
+                    if src(e) in (hname, "headers", flag):
+                        return True
+                    if any(_cmp_none(e, nm) is not None for nm in (hname, "headers", RU)):
+                        return True
+                    if lincmp(e) in limit_forms or lincmp(e, negate=True) in limit_forms:
+                        return True
+                    reads = {x.id for x in ast.walk(e) if isinstance(x, ast.Name)}
+                    if lhvar in reads and reads <= {lhvar, "len"} and not any(isinstance(x, ast.Subscript) for x in ast.walk(e)):
+                        return True     # "is there a Location header at all"
+                    return False
+                cmp_sites = [i for x in so for i in g.ids_of(x)] + [i for x in walk_local(hr) if isinstance(x, ast.Assign) and isinstance(x.value, ast.Call) and
+                                                                 call_name(x.value) == "URI.fromBytes" for i in g.ids_of(x)]
+                for site in sorted(set(strips) | set(cmp_sites)):
+                    extra = [src(g.node(t).ast) for t, lab in g.edge_guards(site) if not _allowed(g.node(t).ast)]
+                    ctx.check(not extra, "credentials/exact-guards", ctx.construct(q, g.node(site).ast),
+                              f"whether the origin comparison / header stripping runs also depends on {extra}: it must run for EVERY redirect that carries headers, "
+                              "judged on the resolved location only (a scheme-relative Location `//b.example/x` has no '://' yet leaves the origin)")
         # default set and canonicalisation
         dflt = mod.module_assign("_defaultSensitiveHeaders")
         try:
@@ -282,6 +317,16 @@ def check(ctx):
         ctx.check(ok, "method/preserved", qp + " | non-redirect", "a response is returned to the caller although its status is in a redirect table (or the reverse)")
 
 
+def _cmp_none(e, name):
+    """test is `name is None` / `name is not None` (or ==/!=): True when test-true means None, False when it means not-None, else None"""
+    if isinstance(e, ast.Compare) and len(e.ops) == 1 and {src(e.left), src(e.comparators[0])} == {name, "None"}:
+        if isinstance(e.ops[0], (ast.Is, ast.Eq)):
+            return True
+        if isinstance(e.ops[0], (ast.IsNot, ast.NotEq)):
+            return False
+    return None
+
+
 def _const(node):
     if node is None:
         return None
@@ -303,6 +348,8 @@ MUTANTS = [
     Mutant("next-hop-remembers-request-uri", CL, "            self._handleResponse, method, uri, headers, redirectCount + 1, location\n", "            self._handleResponse, method, uri, headers, redirectCount + 1, requestURI\n"),
     Mutant("limit-off-by-one", CL, "        if redirectCount >= self._redirectLimit:", "        if redirectCount > self._redirectLimit:"),
     Mutant("count-not-incremented", CL, "headers, redirectCount + 1, location\n", "headers, redirectCount, location\n"),
+    Mutant("origin-check-skipped-for-locations-without-scheme", CL, "        if headers:\n            parsedURI = URI.fromBytes(uri)", "        if headers and locationHeaders[0].find(b\":\") != -1:\n            parsedURI = URI.fromBytes(uri)"),
+    Mutant("origin-check-only-for-absolute-location", CL, "        if headers:\n            parsedURI = URI.fromBytes(uri)", "        if headers and not locationHeaders[0].startswith(b\"/\"):\n            parsedURI = URI.fromBytes(uri)"),
     Mutant("strip-on-same-origin", CL, "            if not sameOrigin:\n                headers = Headers(", "            if sameOrigin:\n                headers = Headers("),
     Mutant("same-origin-ignores-port", CL, "                and (parsedURI.host == parsedLocation.host)\n                and (parsedURI.port == parsedLocation.port)\n", "                and (parsedURI.host == parsedLocation.host)\n"),
     Mutant("previous-hop-origin-and-original-headers-carried", CL, "            parsedURI = URI.fromBytes(uri)\n            parsedLocation", "            parsedURI = URI.fromBytes(requestURI)\n            parsedLocation",
@@ -323,6 +370,7 @@ MUTANTS = [
            "            return self._handleRedirect(\n                response, method, uri, headers, redirectCount\n            )"),
 ]
 SILENT = [
+    Silent("headers-none-test", CL, "        if headers:\n            parsedURI = URI.fromBytes(uri)", "        if headers is not None and headers:\n            parsedURI = URI.fromBytes(uri)"),
     Silent("same-origin-against-previous-hop-stripped-headers-carried", CL, "            parsedURI = URI.fromBytes(uri)\n            parsedLocation", "            parsedURI = URI.fromBytes(requestURI)\n            parsedLocation"),
     Silent("limit-flipped", CL, "        if redirectCount >= self._redirectLimit:", "        if not redirectCount < self._redirectLimit:"),
     Silent("rename-location-local", CL, "        location = self._resolveLocation(requestURI, locationHeaders[0])", "        target = self._resolveLocation(requestURI, locationHeaders[0])",
